@@ -351,6 +351,7 @@ func runC16(e *Engine, r *Report) {
 	borrow(e, r, "C08", "MPT-sync-before-shrink")
 	ruleRawMkdir(e, r)
 	ruleRefusalNeverSuccess(e, r)
+	rulePublishBeforeRecord(e, r)
 	ruleSnapshotDeleteOlder(e, r)
 	ruleTempDirNamePattern(e, r)
 }
